@@ -140,6 +140,18 @@ func C03(r *explore.Run) {
 		}
 		c.OutcomeStr(sh.String())
 	})
+	editSpace(r, 1, func(c *explore.Ctx, e *Entry, s string) {
+		v, res := checkParseTotal(e, s)
+		for sig, d := range v {
+			c.Violation(sig, e.Name+": "+s, d)
+		}
+		if res.Err != nil {
+			c.Nontrivial(explore.Hash(e.Name + s))
+		}
+		if res.Panic == nil {
+			c.OutcomeStr(e.Name + shapeOf(res.Roots))
+		}
+	})
 }
 
 func init() {
